@@ -271,11 +271,13 @@ def main():
     if ck.tier == 'thorough':
         for oi, ai in dirs: swap_shell(ck, prog, ('cw20', 'native', 'native'), oi, ai)
     mint_shell(ck, prog, kinds); withdraw_shell(ck, prog, kinds); collect_shell(ck, prog, kinds)
+    import c04_kernel
+    c04_kernel.run(ck, prog)
     ck.bounds.update(kernel='compute_d and compute_y_raw are uninterpreted functions of their inputs (equal inputs give equal outputs); every claim about D is "D as the pool computes it"',
                      directions='all six ordered asset pairs, asset kinds (native, native, cw20)', widths='reserves and amounts full u128, amps/heights full u64')
     ck.stubs |= {'StableSwap::compute_d -> uninterpreted D3(amp params, a, b, c)', 'StableSwap::compute_y_raw -> uninterpreted Y3(...)'}
     ck.outside += ['accuracy / convergence of the Newton solve of D (z3 returns unknown even at 12-bit ranges, see DESIGN.md 1.3)', 'D per LP monotone over SWAPS and there-and-back no profit (both need D accuracy)',
-                   'the y kernel\'s closeness to the quadratic root']
+                   'the D kernel (compute_d): the y kernel is covered by the loop-exit obligations C04.kernel.*']
     return ck.finish()
 
 
